@@ -37,15 +37,23 @@ Inductive pa :=
 (* a comparison, possibly negated: not (l op r) *)
 Record pred := { p_neg : bool; p_op : string; p_l : pa; p_r : pa }.
 (* the filter between a collection and what consumes its elements:
-     GNest [p1; ..; pk]   Where(p1)...Where(pk) as nested ifs (func_adl fuses chained Where calls, so k <= 1 in
-                          what the implementation emits; the theorems hold for every k)
-     GBool and? p ps      Where(p and p1 and .. ) / Where(p or p1 or ..): visit_BoolOp's lowering - a bool variable
-                          declared in the loop block, assigned the first operand, each further operand assigned inside
-                          an `if (v)` (and) / `if (!v)` (or), then `if (v)` around what follows *)
-Inductive guard := GNest (ps : list pred) | GBool (is_and : bool) (p : pred) (ps : list pred).
-Definition gsize (g : guard) : nat := match g with GNest _ => 0 | GBool _ _ _ => 1 end.
+     GNone                no Where
+     GOne p               Where(p): everything downstream sits in `if (p)`
+     GBool and? p ps      Where(p and p1 and .. ) / Where(p or p1 or ..), also Where(p).Where(p1).. which func_adl fuses into
+                          `and`: visit_BoolOp's lowering - a bool variable declared in the loop block, assigned the first
+                          operand, each further operand assigned inside an `if (v)` (and) / `if (!v)` (or), then `if (v)`
+                          around what follows *)
+Inductive guard := GNone | GOne (p : pred) | GBool (is_and : bool) (p : pred) (ps : list pred).
+Definition gsize (g : guard) : nat := match g with GBool _ _ _ => 1 | _ => 0 end.
+(* the value computed from one element: arithmetic, conditional expressions `a if c else b` (test a comparison, arms
+   arithmetic), and + - * of those.  visit_IfExp lowers a conditional to a double variable declared in the block that
+   consumes the element, assigned in the two arms of an if/else that precedes the statement using the value. *)
+Inductive bexp :=
+| BPa (a : pa)
+| BIf (c : pred) (a b : pa)
+| BBin (op : string) (x y : bexp).
 (* the terminal over the filtered collection: Count() or Select(lambda x: body).Sum() *)
-Inductive aggk := ACount | ASum (body : pa).
+Inductive aggk := ACount | ASum (body : bexp).
 Record cnt := { k_coll : collref; k_guard : guard; k_agg : aggk }.
 
 (* static type of a predicate-level arithmetic expression: methods without declaration are double *)
@@ -60,9 +68,17 @@ Fixpoint pa_type (a : pa) : string :=
 (* visit_BinOp for `/`: the left operand is cast to double unless an operand already is one (then the usual
    arithmetic conversions of C++ make the division a floating one) *)
 Definition div_needs_cast (x y : pa) : bool := negb (String.eqb (pa_type x) "double" || String.eqb (pa_type y) "double").
+Fixpoint btype (e : bexp) : string :=
+  match e with
+  | BPa a => pa_type a
+  | BIf _ _ _ => "double"
+  | BBin _ x y => if String.eqb (btype x) "int" && String.eqb (btype y) "int" then "int" else "double"
+  end.
+Fixpoint nifs (e : bexp) : nat := match e with BPa _ => 0 | BIf _ _ _ => 1 | BBin _ x y => nifs x + nifs y end.
 (* accumulator type: int for Count; for Sum the type of the summand (most_accurate_type [int, summand]) *)
 Definition agg_type (k : cnt) : string :=
-  match k_agg k with ACount => "int" | ASum body => pa_type body end.
+  match k_agg k with ACount => "int" | ASum body => btype body end.
+Definition agg_nifs (g : aggk) : nat := match g with ACount => 0 | ASum body => nifs body end.
 (* event-level operators: + - * and the six comparisons *)
 Inductive bop := OAdd | OSub | OMul | OLt | OLe | OGt | OGe | OEq | ONe.
 Definition op_str (o : bop) : string :=
@@ -110,34 +126,55 @@ Definition tpred (iv : string) (arrow : bool) (p : pred) : cexp :=
   let c := CBin (p_op p) (tpa iv arrow (p_l p)) (tpa iv arrow (p_r p)) in
   if p_neg p then CUn "!" c else c.
 
-(* guards around several statements: the statements sit in the innermost if-block *)
-Fixpoint guards_block (conds : list cexp) (inner : stmts) : stmts :=
-  match conds with
-  | [] => inner
-  | c :: r => one_stmt (SIf c (Blk [] (guards_block r inner)) None)
-  end.
 Definition bo_name (n : nat) : string := nm "bool_op" (S (S n)).
-(* declarations a guard adds to the loop block, and the statements of the loop block *)
-Definition gdecls (g : guard) (n : nat) : list decl :=
-  match g with GNest _ => [] | GBool _ _ _ => [bo_decl (bo_name n)] end.
-Definition gstmts (iv : string) (arrow : bool) (g : guard) (n : nat) (inner : stmts) : stmts :=
+(* the block of a loop over a guarded collection: `ds` / `inner` are the declarations and statements of what consumes an
+   element; they sit in the loop block itself when there is no Where, else in the block of the last `if` *)
+Definition loop_block (iv : string) (arrow : bool) (g : guard) (n : nat) (ds : list decl) (inner : stmts) : block :=
   match g with
-  | GNest ps => guards_block (map (tpred iv arrow) ps) inner
+  | GNone => Blk ds inner
+  | GOne p => Blk [] (one_stmt (SIf (tpred iv arrow p) (Blk ds inner) None))
   | GBool is_and p ps =>
-      app_stmts (bo_lower is_and (bo_name n) SNil (tpred iv arrow p)
-                          (map (fun q => bo_operand (bo_name n) [] SNil (tpred iv arrow q)) ps))
-                (one_stmt (SIf (CVar (bo_name n)) (Blk [] inner) None))
+      Blk [bo_decl (bo_name n)]
+          (app_stmts (bo_lower is_and (bo_name n) SNil (tpred iv arrow p)
+                               (map (fun q => bo_operand (bo_name n) [] SNil (tpred iv arrow q)) ps))
+                     (one_stmt (SIf (CVar (bo_name n)) (Blk ds inner) None)))
   end.
-Definition loop_block (iv : string) (arrow : bool) (g : guard) (n : nat) (inner : stmts) : block :=
-  Blk (gdecls g n) (gstmts iv arrow g n inner).
+
+(* conditionals of a body: names, declarations, the if/else statements, and the expression that reads them;
+   the k-th conditional (left to right) is variable if_else_result(m+k) *)
+Definition if_name (m : nat) : string := nm "if_else_result" (S (S m)).
+Definition arm_set (r : string) (iv : string) (arrow : bool) (a : pa) : stmt :=
+  SSet r (if String.eqb (pa_type a) "double" then None else Some "double") (tpa iv arrow a).
+Fixpoint bdecls (e : bexp) (m : nat) : list decl :=
+  match e with
+  | BPa _ => []
+  | BIf _ _ _ => [{| d_type := "double"; d_name := if_name m; d_init := None |}]
+  | BBin _ x y => bdecls x m ++ bdecls y (m + nifs x)
+  end.
+Fixpoint bpre (iv : string) (arrow : bool) (e : bexp) (m : nat) : stmts :=
+  match e with
+  | BPa _ => SNil
+  | BIf c a b => one_stmt (SIf (tpred iv arrow c) (Blk [] (one_stmt (arm_set (if_name m) iv arrow a)))
+                                (Some (Blk [] (one_stmt (arm_set (if_name m) iv arrow b)))))
+  | BBin _ x y => app_stmts (bpre iv arrow x m) (bpre iv arrow y (m + nifs x))
+  end.
+Fixpoint bx (iv : string) (arrow : bool) (e : bexp) (m : nat) : cexp :=
+  match e with
+  | BPa a => tpa iv arrow a
+  | BIf _ _ _ => CVar (if_name m)
+  | BBin op x y => CBin op (bx iv arrow x m) (bx iv arrow y (m + nifs x))
+  end.
 
 Definition cv_name (k : cnt) (n : nat) : string := nm (c_base (k_coll k)) n.
 Definition iv_name (n : nat) : string := nm "i_obj" (S n).
 Definition agg_name (n : nat) : string := nm "aggResult" (S (S n)).   (* used at n + gsize of the guard *)
-Definition kagg (k : cnt) (n : nat) : string := agg_name (n + gsize (k_guard k)).
+Definition kagg (k : cnt) (n : nat) : string := agg_name (n + gsize (k_guard k) + agg_nifs (k_agg k)).
 
-Definition agg_summand (iv : string) (arrow : bool) (g : aggk) : cexp :=
-  match g with ACount => CInt 1 | ASum body => tpa iv arrow body end.
+Definition agg_summand (iv : string) (arrow : bool) (g : aggk) (m : nat) : cexp :=
+  match g with ACount => CInt 1 | ASum body => bx iv arrow body m end.
+Definition agg_ds (g : aggk) (m : nat) : list decl := match g with ACount => [] | ASum body => bdecls body m end.
+Definition agg_pre (iv : string) (arrow : bool) (g : aggk) (m : nat) : stmts :=
+  match g with ACount => SNil | ASum body => bpre iv arrow body m end.
 Definition agg_update (agg : string) (summand : cexp) : stmt := SSet agg None (CBin "+" (CVar agg) summand).
 
 Definition tcount_decls (k : cnt) (n : nat) : list decl :=
@@ -145,8 +182,9 @@ Definition tcount_decls (k : cnt) (n : nat) : list decl :=
    {| d_type := agg_type k; d_name := kagg k n; d_init := Some (CInt 0) |}].
 Definition tcount_loop (k : cnt) (n : nat) : stmt :=
   SFor (iv_name n) (CDeref (CVar (cv_name k n)))
-       (loop_block (iv_name n) (c_arrow (k_coll k)) (k_guard k) n
-                   (one_stmt (agg_update (kagg k n) (agg_summand (iv_name n) (c_arrow (k_coll k)) (k_agg k))))).
+       (loop_block (iv_name n) (c_arrow (k_coll k)) (k_guard k) n (agg_ds (k_agg k) (n + gsize (k_guard k)))
+                   (app_stmts (agg_pre (iv_name n) (c_arrow (k_coll k)) (k_agg k) (n + gsize (k_guard k)))
+                              (one_stmt (agg_update (kagg k n) (agg_summand (iv_name n) (c_arrow (k_coll k)) (k_agg k) (n + gsize (k_guard k))))))).
 Definition tcount_stmts (idiom : string) (k : cnt) (n : nat) : stmts :=
   SCons (SFetch idiom (cv_name k n) (c_ctype (k_coll k)) (c_bank (k_coll k))
                 (fetch_lines idiom (c_ctype (k_coll k)) (c_bank (k_coll k))))
@@ -156,7 +194,7 @@ Definition tcount_stmts (idiom : string) (k : cnt) (n : nat) : stmts :=
 Fixpoint te (idiom : string) (e : ex) (n : nat) : list decl * stmts * cexp * nat :=
   match e with
   | EInt z => ([], SNil, CInt z, n)
-  | ECount k => (tcount_decls k n, tcount_stmts idiom k n, CVar (kagg k n), S (S (S n)) + gsize (k_guard k))
+  | ECount k => (tcount_decls k n, tcount_stmts idiom k n, CVar (kagg k n), S (S (S n)) + gsize (k_guard k) + agg_nifs (k_agg k))
   | EBin o a b =>
       let '(da, sa, ca, n1) := te idiom a n in
       let '(db, sb, cb, n2) := te idiom b n1 in
@@ -185,29 +223,31 @@ Definition prog (bk : backend) (e : ex) (n0 : nat) : program :=
 (* ---------- rows: several columns, scalar or vector ---------- *)
 Inductive column :=
 | ColScalar (e : ex)                                           (* an event-level value *)
-| ColVec (c : collref) (g : guard) (body : pa)                 (* e.Coll("bank")[.Where(p)].Select(lambda x: body) *)
+| ColVec (c : collref) (g : guard) (body : bexp)               (* e.Coll("bank")[.Where(p)].Select(lambda x: body) *)
 | ColFirst (c : collref) (g : guard) (body : pa) (line : string).
     (* e.Coll("bank")[.Where(p)].Select(lambda x: body).First()  (or ....First().m()): the first passing element's
        value; `line` is the emitted throw statement (its message quotes the query text) *)
 Definition row := list (string * column).                      (* branch name, column *)
 
 Fixpoint ex_size (e : ex) : nat :=
-  match e with EInt _ => 0 | ECount k => 3 + gsize (k_guard k) | EBin _ a b => ex_size a + ex_size b end.
+  match e with EInt _ => 0 | ECount k => 3 + gsize (k_guard k) + agg_nifs (k_agg k) | EBin _ a b => ex_size a + ex_size b end.
 Definition col_size (c : column) : nat :=
-  match c with ColScalar e => ex_size e | ColVec _ g _ => 2 + gsize g | ColFirst _ g _ _ => 3 + gsize g end.
+  match c with ColScalar e => ex_size e | ColVec _ g body => 2 + gsize g + nifs body | ColFirst _ g _ _ => 3 + gsize g end.
 Fixpoint row_size (r : row) : nat := match r with [] => 0 | (_, c) :: t => col_size c + row_size t end.
 
 Definition vec_type (ty : string) : string := "std::vector<" +++ ty +++ ">".
 Definition col_type (c : column) : string :=
-  match c with ColScalar e => ex_type e | ColVec _ _ body => vec_type (pa_type body) | ColFirst _ _ body _ => pa_type body end.
+  match c with ColScalar e => ex_type e | ColVec _ _ body => vec_type (btype body) | ColFirst _ _ body _ => pa_type body end.
 
 (* class variable of column k: unique_name(name, is_class_var=True) after all per-event names *)
 Definition mem_name (name : string) (idx : nat) : string := nm ("_" +++ name) idx.
 
 Definition vcv_name (c : collref) (n : nat) : string := nm (c_base c) n.
-Definition tvec_loop (c : collref) (g : guard) (body : pa) (mem : string) (n : nat) : stmt :=
+Definition tvec_loop (c : collref) (g : guard) (body : bexp) (mem : string) (n : nat) : stmt :=
   SFor (iv_name n) (CDeref (CVar (vcv_name c n)))
-       (loop_block (iv_name n) (c_arrow c) g n (one_stmt (SPush mem None (tpa (iv_name n) (c_arrow c) body)))).
+       (loop_block (iv_name n) (c_arrow c) g n (bdecls body (n + gsize g))
+                   (app_stmts (bpre (iv_name n) (c_arrow c) body (n + gsize g))
+                              (one_stmt (SPush mem None (bx (iv_name n) (c_arrow c) body (n + gsize g)))))).
 
 (* call_First: flag declared in the block enclosing the loop, capture under the guards, throw-if after the loop;
    the column member is assigned inside the capture *)
@@ -216,7 +256,7 @@ Definition tfirst_capture (c : collref) (g : guard) (body : pa) (mem : string) (
   fi_capture (isf_name (n + gsize g)) [] (one_stmt (SSet mem None (tpa (iv_name n) (c_arrow c) body))).
 Definition tfirst_loop (c : collref) (g : guard) (body : pa) (mem : string) (n : nat) : stmt :=
   SFor (iv_name n) (CDeref (CVar (vcv_name c n)))
-       (loop_block (iv_name n) (c_arrow c) g n (one_stmt (tfirst_capture c g body mem n))).
+       (loop_block (iv_name n) (c_arrow c) g n [] (one_stmt (tfirst_capture c g body mem n))).
 
 (* code of one column in the event block: declarations, statements, next index *)
 Definition tcol (idiom : string) (c : column) (mem : string) (n : nat) : list decl * stmts * nat :=
@@ -226,7 +266,7 @@ Definition tcol (idiom : string) (c : column) (mem : string) (n : nat) : list de
       ([{| d_type := c_ctype cr; d_name := vcv_name cr n; d_init := None |}],
        SCons (SFetch idiom (vcv_name cr n) (c_ctype cr) (c_bank cr) (fetch_lines idiom (c_ctype cr) (c_bank cr)))
              (one_stmt (tvec_loop cr g body mem n)),
-       S (S n) + gsize g)
+       S (S n) + gsize g + nifs body)
   | ColFirst cr g body line =>
       ([{| d_type := c_ctype cr; d_name := vcv_name cr n; d_init := None |}; fi_decl (isf_name (n + gsize g))],
        SCons (SFetch idiom (vcv_name cr n) (c_ctype cr) (c_bank cr) (fetch_lines idiom (c_ctype cr) (c_bank cr)))
@@ -250,7 +290,7 @@ Fixpoint trow_sets (idiom : string) (r : row) (nf k n : nat) : stmts :=
   | (name, c) :: t =>
       match c with
       | ColScalar e => let '(_, _, ce, n') := te idiom e n in SCons (SSet (mem_name name (nf + k)) None ce) (trow_sets idiom t nf (S k) n')
-      | ColVec _ g _ => trow_sets idiom t nf (S k) (S (S n) + gsize g)
+      | ColVec _ g body => trow_sets idiom t nf (S k) (S (S n) + gsize g + nifs body)
       | ColFirst _ g _ _ => trow_sets idiom t nf (S k) (S (S (S n)) + gsize g)
       end
   end.
@@ -294,11 +334,33 @@ Definition dpredv (ev : event) (v : value) (p : pred) : res value :=
   rdo x <- dpa ev v (p_l p); rdo y <- dpa ev v (p_r p); rdo r <- arith (p_op p) x y;
   if p_neg p then unary "!" r else ROk r.
 Definition dpred (ev : event) (v : value) (p : pred) : res bool := rdo r <- dpredv ev v p; truth r.
-(* Where(p1).Where(p2)...: the predicates are applied to each element in turn, left to right *)
-Fixpoint passes (ev : event) (v : value) (ps : list pred) : res bool :=
-  match ps with
-  | [] => ROk true
-  | p :: r => rdo b <- dpred ev v p; if b then passes ev v r else ROk false
+(* bodies with conditionals.  The emitted code evaluates the conditionals first, left to right (only the taken arm of
+   each), then the expression that reads them; the reference does the same, so that which fault an undefined body
+   raises is the same too.  `dnat` is the ordinary recursive evaluation: they agree whenever either has a value. *)
+Definition dcond (ev : event) (v : value) (c : pred) (a b : pa) : res value :=
+  rdo t <- dpred ev v c; rdo x <- (if t then dpa ev v a else dpa ev v b);
+  match conv "double" x with
+  | VUninit => RStuck (KUninit "conditional")    (* only on ill-typed events: a method "returning" an uninitialised cell *)
+  | y => ROk y
+  end.
+Fixpoint dconds (ev : event) (v : value) (e : bexp) : res (list value) :=
+  match e with
+  | BPa _ => ROk []
+  | BIf c a b => rdo x <- dcond ev v c a b; ROk [x]
+  | BBin _ x y => rdo l1 <- dconds ev v x; rdo l2 <- dconds ev v y; ROk (l1 ++ l2)
+  end.
+Fixpoint dbx (ev : event) (v : value) (e : bexp) (rs : list value) : res value :=
+  match e with
+  | BPa a => dpa ev v a
+  | BIf _ _ _ => match rs with r :: _ => ROk r | [] => RStuck (KType "conditional value") end
+  | BBin op x y => rdo p <- dbx ev v x (firstn (nifs x) rs); rdo q <- dbx ev v y (skipn (nifs x) rs); arith op p q
+  end.
+Definition db (ev : event) (v : value) (e : bexp) : res value := rdo rs <- dconds ev v e; dbx ev v e rs.
+Fixpoint dnat (ev : event) (v : value) (e : bexp) : res value :=
+  match e with
+  | BPa a => dpa ev v a
+  | BIf c a b => dcond ev v c a b
+  | BBin op x y => rdo p <- dnat ev v x; rdo q <- dnat ev v y; arith op p q
   end.
 (* and / or are lazy: operands left to right, the rest is not evaluated once the result is known *)
 Fixpoint bo_rest (ev : event) (v : value) (is_and : bool) (b : bool) (ps : list pred) : res bool :=
@@ -308,12 +370,13 @@ Fixpoint bo_rest (ev : event) (v : value) (is_and : bool) (b : bool) (ps : list 
   end.
 Definition gpasses (ev : event) (v : value) (g : guard) : res bool :=
   match g with
-  | GNest ps => passes ev v ps
+  | GNone => ROk true
+  | GOne p => dpred ev v p
   | GBool is_and p ps => rdo b <- dpred ev v p; bo_rest ev v is_and b ps
   end.
 (* one step of the aggregate on a passing element: acc + 1, or acc + body(v), stored in the accumulator's type *)
 Definition agg_step (ev : event) (ty : string) (g : aggk) (acc v : value) : res value :=
-  rdo x <- match g with ACount => ROk (VInt 1) | ASum body => dpa ev v body end;
+  rdo x <- match g with ACount => ROk (VInt 1) | ASum body => db ev v body end;
   rdo s <- arith "+" acc x;
   ROk (conv ty s).
 Fixpoint agg_loop (ev : event) (ty : string) (g : aggk) (ps : guard) (l : list value) (acc : value) : res value :=
@@ -337,11 +400,11 @@ Fixpoint de (ev : event) (e : ex) : res value :=
   end.
 
 (* a vector column: the values of the body on the passing elements, in order, stored with the element type *)
-Fixpoint vec_loop (ev : event) (ty : string) (body : pa) (ps : guard) (l : list value) (acc : list value) : res (list value) :=
+Fixpoint vec_loop (ev : event) (ty : string) (body : bexp) (ps : guard) (l : list value) (acc : list value) : res (list value) :=
   match l with
   | [] => ROk acc
   | v :: r => rdo b <- gpasses ev v ps;
-              if b then rdo x <- dpa ev v body; vec_loop ev ty body ps r (acc ++ [conv ty x]) else vec_loop ev ty body ps r acc
+              if b then rdo x <- db ev v body; vec_loop ev ty body ps r (acc ++ [conv ty x]) else vec_loop ev ty body ps r acc
   end.
 (* First: the predicates are applied to every element (the loop runs to the end), the body only to the first
    passing one *)
@@ -361,7 +424,7 @@ Definition dcol (ev : event) (c : column) : res value :=
   | ColVec cr ps body =>
       match assoc_ss (c_ctype cr, c_bank cr) (ev_colls ev) with
       | None => RFault FRetrieve
-      | Some (VVec l) => rdo vs <- vec_loop ev (pa_type body) body ps l []; ROk (VVec vs)
+      | Some (VVec l) => rdo vs <- vec_loop ev (btype body) body ps l []; ROk (VVec vs)
       | Some VNull => RFault FNullDeref
       | Some _ => RStuck (KType "the bank does not hold a collection")
       end
@@ -404,6 +467,27 @@ Fixpoint d_pa_fuel (fuel : nat) (s : sexp) : option pa :=
     end
   end.
 Definition d_pa (s : sexp) : option pa := d_pa_fuel (S (sexp_depth s)) s.
+Definition d_pred0 (s : sexp) : option pred :=
+  match s with
+  | SList [SAtom op; l; r] =>
+      match d_pa l, d_pa r with Some l', Some r' => Some {| p_neg := false; p_op := op; p_l := l'; p_r := r' |} | _, _ => None end
+  | SList [SAtom "not"; SAtom op; l; r] =>
+      match d_pa l, d_pa r with Some l', Some r' => Some {| p_neg := true; p_op := op; p_l := l'; p_r := r' |} | _, _ => None end
+  | _ => None
+  end.
+Fixpoint d_bexp_fuel (fuel : nat) (s : sexp) : option bexp :=
+  match fuel with
+  | O => None
+  | S f =>
+    match s with
+    | SList [SAtom "if"; c; a; b] =>
+        match d_pred0 c, d_pa a, d_pa b with Some c', Some a', Some b' => Some (BIf c' a' b') | _, _, _ => None end
+    | SList [SAtom "bbin"; SAtom op; x; y] =>
+        match d_bexp_fuel f x, d_bexp_fuel f y with Some x', Some y' => Some (BBin op x' y') | _, _ => None end
+    | _ => option_map BPa (d_pa s)
+    end
+  end.
+Definition d_bexp (s : sexp) : option bexp := d_bexp_fuel (S (sexp_depth s)) s.
 Definition d_pred (s : sexp) : option pred :=
   match s with
   | SList [SAtom op; l; r] =>
@@ -417,14 +501,16 @@ Definition d_guard (ps : list sexp) : option guard :=
   match ps with
   | SAtom "and" :: p :: r => match d_pred p, d_list d_pred r with Some p', Some r' => Some (GBool true p' r') | _, _ => None end
   | SAtom "or" :: p :: r => match d_pred p, d_list d_pred r with Some p', Some r' => Some (GBool false p' r') | _, _ => None end
-  | _ => option_map GNest (d_list d_pred ps)
+  | [] => Some GNone
+  | [p] => option_map GOne (d_pred p)
+  | _ => None
   end.
 Definition d_cnt (s : sexp) : option cnt :=
   match s with
   | SList [SAtom base; SAtom ct; SAtom bank; ar; SList ps; g] =>
       match d_bool ar, d_guard ps, (match g with
                                           | SList [SAtom "count"] => Some ACount
-                                          | SList [SAtom "sum"; b] => option_map ASum (d_pa b)
+                                          | SList [SAtom "sum"; b] => option_map ASum (d_bexp b)
                                           | _ => None end) with
       | Some ar', Some ps', Some g' =>
           Some {| k_coll := {| c_base := base; c_ctype := ct; c_bank := bank; c_arrow := ar' |}; k_guard := ps'; k_agg := g' |}
@@ -451,7 +537,7 @@ Definition d_col (s : sexp) : option (string * column) :=
   match s with
   | SList [SAtom name; SList [SAtom "scalar"; e]] => option_map (fun e' => (name, ColScalar e')) (d_ex e)
   | SList [SAtom name; SList [SAtom "vec"; SAtom base; SAtom ct; SAtom bank; ar; SList ps; b]] =>
-      match d_bool ar, d_guard ps, d_pa b with
+      match d_bool ar, d_guard ps, d_bexp b with
       | Some ar', Some ps', Some b' =>
           Some (name, ColVec {| c_base := base; c_ctype := ct; c_bank := bank; c_arrow := ar' |} ps' b')
       | _, _, _ => None
